@@ -646,6 +646,64 @@ pub fn cases() -> Vec<Case> {
 			}
 		})));
 	}
+	// get_mut / child_mut / as_mut / iter_mut positions for every container shape (values written through them stick)
+	out.push(("get_mut positions: boxed slice, array, tuple, nested, &mut, Poisonable".into(), Box::new(|| {
+		use happylock::lockable::LockableGetMut;
+		let first = COUNTS.with(|c| c.borrow().len());
+		let mut a = OwnedLockCollection::new(rs(3).into_boxed_slice());
+		check_ids(&a.get_mut().iter().map(|t| t.id).collect::<Vec<_>>(), first, "Owned<Box<[RwLock]>>::get_mut");
+		a.get_mut()[2].val = 71;
+		expect(a.into_inner()[2].val == 71, "write through get_mut sticks (boxed slice)");
+		let first = COUNTS.with(|c| c.borrow().len());
+		let mut b = RetryingLockCollection::new([Mutex::new(Token::new()), Mutex::new(Token::new()), Mutex::new(Token::new())]);
+		check_ids(&b.get_mut().iter().map(|t| t.id).collect::<Vec<_>>(), first, "Retrying<[Mutex;3]>::get_mut");
+		b.get_mut()[1].val = 72;
+		let mut n = 0;
+		for (i, m) in b.iter_mut().enumerate() {
+			expect(m.get_mut().id == first + i, "iter_mut yields the locks in declared order");
+			n += 1;
+		}
+		expect(n == 3, "iter_mut yields every lock");
+		expect(b.child_mut()[1].get_mut().val == 72, "child_mut sees the write");
+		expect(b.into_inner()[1].val == 72, "write through get_mut sticks (array)");
+		let first = COUNTS.with(|c| c.borrow().len());
+		let mut c = OwnedLockCollection::new((Mutex::new(Token::new()), RwLock::new(Token::new()), Poisonable::new(Mutex::new(Token::new())), ms(2), [RwLock::new(Token::new())]));
+		{
+			let g = c.get_mut();
+			let mut ids = vec![g.0.id, g.1.id, g.2.unwrap().id];
+			ids.extend(g.3.iter().map(|t| t.id));
+			ids.push(g.4[0].id);
+			check_ids(&ids, first, "5-tuple get_mut");
+		}
+		{
+			let g = c.get_mut();
+			g.3[1].val = 73;
+		}
+		let inner = c.into_inner();
+		expect(inner.3[1].val == 73, "write through nested get_mut sticks");
+		let first = COUNTS.with(|c| c.borrow().len());
+		let mut m1 = Mutex::new(Token::new());
+		let mut r1 = RwLock::new(Token::new());
+		{
+			let mut by_ref = (&mut m1, &mut r1);
+			let g = LockableGetMut::get_mut(&mut by_ref);
+			check_ids(&[g.0.id, g.1.id], first, "(&mut Mutex, &mut RwLock) get_mut");
+			g.1.val = 74;
+		}
+		expect(r1.into_inner().val == 74, "write through &mut get_mut sticks");
+		let first = COUNTS.with(|c| c.borrow().len());
+		let mut p = Poisonable::new(RetryingLockCollection::new(rs(2)));
+		check_ids(&p.get_mut().unwrap().iter().map(|t| t.id).collect::<Vec<_>>(), first, "Poisonable<Retrying<Vec>>::get_mut");
+		p.child_mut().unwrap().get_mut()[0].val = 75;
+		expect(p.into_inner().unwrap()[0].val == 75, "write through Poisonable::child_mut sticks");
+		let first = COUNTS.with(|c| c.borrow().len());
+		let mut o = OwnedLockCollection::new(ms(3));
+		let v: &mut Vec<M> = o.as_mut();
+		v[2].get_mut().val = 76;
+		o.child_mut()[0].get_mut().val = 77;
+		let inner = o.into_inner();
+		expect(inner[2].val == 76 && inner[0].val == 77 && inner[1].id == first + 1, "as_mut / child_mut reach the stored locks");
+	})));
 	// Ref / new_ref collections do not own: dropping them drops nothing; the data drops once
 	for n in 0..=3usize {
 		out.push((format!("Ref::new / Boxed::new_ref / Retrying::new_ref over [{}] locks", n), Box::new(move || {
